@@ -89,4 +89,7 @@ W_EmptySelection == ~EmptySelection(D, O)
 W_StrictSubset == ~(~EmptySelection(D, O) /\ O.given # {} /\ Len(ctx.T) * Len(ctx.L) * Len(ctx.S) < Len(Context(D, NoOptions).T) * Len(Context(D, NoOptions).L) * Len(Context(D, NoOptions).S))
 W_ObsRangeMasks == ~("obsrange" \in O.given /\ ctx.n >= 2 /\ \E c \in ctx.G : IsNaN(ctx.adj[2, "obs", c]) /\ ~IsNaN(Context(D, NoOptions).adj[2, "obs", c]))
 W_RelativelyClose == ~(\E a, b \in Elems(ctx.T) : a # b /\ Abs(a - b) <= 3600)
+W_ExtraFieldMissing == ~(ctx.n >= 2 /\ \E c \in ctx.G : "q0.01" \in FieldsOf(D) /\ IsNaN(ctx.adj[1, "q0.01", c]) /\ ~IsNaN(ctx.adj[1, "obs", c]))
+W_EnsembleUnderT == ~(Family = "C15Ens" /\ "T" \in O.given /\ ctx.n = 2)
+W_SelectionRemovesTimes == ~(O.given \cap {"d", "tod"} # {} /\ ctx.n > 0 /\ Len(ctx.T) < Len(Context(D, NoOptions).T) /\ Len(ctx.T) >= 2)
 =============================================================================
